@@ -10,6 +10,7 @@ import (
 
 	"github.com/csgura/fp"
 	"github.com/csgura/fp/as"
+	"github.com/csgura/fp/eq"
 	"github.com/csgura/fp/hash"
 	"github.com/csgura/fp/immutable"
 	"github.com/csgura/fp/iterator"
@@ -126,7 +127,8 @@ func (c IterCase) source(cnt *srcCounter) (it fp.Iterator[int], lazy bool, unord
 		return iterator.Range(s[0], s[0]+len(s)), false, false
 	case "RangeClosed":
 		return iterator.RangeClosed(s[0], s[0]+len(s)-1), false, false
-	case "hamt.Map", "hamt.Keys", "hamt.Values", "hamt.Set", "gomap", "UnsafeGoMap", "mutable.Map", "mutable.Set", "IteratorOfGoMap", "IteratorOfGoSet", "zeroMap":
+	case "hamt.Map", "hamt.Keys", "hamt.Values", "hamt.Set", "gomap", "UnsafeGoMap", "mutable.Map", "mutable.Set", "IteratorOfGoMap", "IteratorOfGoSet", "zeroMap",
+		"hamt.MapColl", "hamt.KeysColl", "hamt.SetColl":
 		// src is a list of distinct keys; the value of key k is k%3+1; the iterator yields 100*k+v (or k)
 		tp := make([]fp.Tuple2[int, int], len(s))
 		gm := map[int]int{}
@@ -135,7 +137,15 @@ func (c IterCase) source(cnt *srcCounter) (it fp.Iterator[int], lazy bool, unord
 			gm[k] = k%3 + 1
 		}
 		enc := func(t fp.Tuple2[int, int]) int { return 100*t.I1 + t.I2 }
+		// a lawful hasher with few values: several groups of fully colliding keys (collision leaves next to each other)
+		coll := hash.New(eq.Given[int](), func(k int) uint32 { return uint32(k % 4) })
 		switch c.Ctor {
+		case "hamt.MapColl":
+			return iterator.Map(immutable.Map(coll, tp...).Iterator(), enc), false, true
+		case "hamt.KeysColl":
+			return immutable.Map(coll, tp...).Keys(), false, true
+		case "hamt.SetColl":
+			return immutable.Set(coll, s...).Iterator(), false, true
 		case "hamt.Map":
 			return iterator.Map(immutable.Map(hash.Number[int](), tp...).Iterator(), enc), false, true
 		case "hamt.Keys":
@@ -184,7 +194,7 @@ func (c IterCase) source(cnt *srcCounter) (it fp.Iterator[int], lazy bool, unord
 func (c IterCase) content() []int {
 	out := []int{}
 	switch c.Ctor {
-	case "hamt.Map", "gomap", "UnsafeGoMap", "mutable.Map", "IteratorOfGoMap", "zeroMap":
+	case "hamt.Map", "gomap", "UnsafeGoMap", "mutable.Map", "IteratorOfGoMap", "zeroMap", "hamt.MapColl":
 		for _, k := range c.Src {
 			out = append(out, 100*k+k%3+1)
 		}
@@ -247,6 +257,15 @@ func applyStage(it fp.Iterator[int], st Stage) fp.Iterator[int] {
 			return iterator.Concat(st.Lit[0], it)
 		}
 		return fp.IteratorOfSeq(st.Lit).Concat(it)
+	case "zip":
+		// zipped with a literal second operand: element i becomes x + 10*lit[i]
+		return iterator.Map(iterator.Zip(it, fp.IteratorOfSeq(st.Lit)), func(t fp.Tuple2[int, int]) int { return t.I1 + 10*t.I2 })
+	case "zip3":
+		// three operands: the source, the literal and the reversed first n elements of the literal
+		l3 := zip3Third(st.Lit, st.N)
+		return iterator.Map(iterator.Zip3(it, fp.IteratorOfSeq(st.Lit), fp.IteratorOfSeq(l3)), func(t fp.Tuple3[int, int, int]) int {
+			return t.I1 + 10*t.I2 + 100*t.I3
+		})
 	case "scan":
 		return iterator.Scan(it, 0, func(b, a int) int { return b + a })
 	case "zipidx":
@@ -572,7 +591,19 @@ func caseJSON(c IterCase) string {
 
 // ---- case generation (seeded) ----
 
-var lazyStages = []string{"take", "drop", "tw", "dw", "filter", "filternot", "map", "flatmap", "concat", "prepend", "scan", "zipidx", "tap", "id", "spanl", "spanr", "partl", "partr"}
+var lazyStages = []string{"take", "drop", "tw", "dw", "filter", "filternot", "map", "flatmap", "concat", "prepend", "scan", "zipidx", "zip", "zip3", "tap", "id", "spanl", "spanr", "partl", "partr"}
+
+func zip3Third(lit []int, n int) []int {
+	k := n
+	if k > len(lit) {
+		k = len(lit)
+	}
+	out := make([]int, k)
+	for i := 0; i < k; i++ {
+		out[i] = lit[k-1-i]
+	}
+	return out
+}
 
 func randStage(r *rand.Rand, eager bool) Stage {
 	t := lazyStages[r.Intn(len(lazyStages))]
@@ -585,6 +616,12 @@ func randStage(r *rand.Rand, eager bool) Stage {
 	}
 	if t == "id" {
 		st.Impl = []string{"", "pull", "list", "flatten"}[r.Intn(4)]
+	}
+	if t == "zip" || t == "zip3" {
+		st.Lit = make([]int, r.Intn(5))
+		for i := range st.Lit {
+			st.Lit[i] = r.Intn(5) + 1
+		}
 	}
 	if t == "concat" || t == "prepend" {
 		st.Lit = make([]int, r.Intn(3))
@@ -631,7 +668,7 @@ type IterGen struct {
 var ctorsOrdered = []string{"IteratorOfSeq", "FromSeq", "FromSlice", "Of", "seq.Iterator", "FromList", "List", "Pull", "zero", "Empty",
 	"FromOption", "IteratorOfOption", "option.Iterator", "try.Iterator", "FromPtr", "Range", "RangeClosed"}
 var ctorsUnordered = []string{"hamt.Map", "hamt.Keys", "hamt.Values", "hamt.Set", "gomap", "UnsafeGoMap", "mutable.Map", "mutable.Set",
-	"IteratorOfGoMap", "IteratorOfGoSet", "zeroMap"}
+	"IteratorOfGoMap", "IteratorOfGoSet", "zeroMap", "hamt.MapColl", "hamt.KeysColl", "hamt.SetColl", "hamt.MapColl", "hamt.SetColl"}
 var wholes = []string{"", "", "ToSeq", "iterator.ToSeq", "ToSlice", "seq.Collect", "ToList", "All", "Foreach", "Fold", "NextOption",
 	"iterator.FoldTry", "iterator.FoldOption", "iterator.FoldError", "iterator.FoldRight",
 	"list.Fold", "list.FoldLeft", "list.FoldTry", "list.FoldOption", "list.FoldError", "list.FoldRight", "list.FoldMap",
